@@ -573,3 +573,33 @@ Example down_nonvacuous :
   asm_h2v1_downsample jcsample_avx2_consts 32 19 24 row = c_h2v1_downsample 19 24 row /\
   c_h2v1_downsample 19 16 row = [1; 4; 5; 8; 9; 12; 131; 252; 253; 255; 255; 255; 255; 255; 255; 255].
 Proof. vm_compute. repeat split; reflexivity. Qed.
+
+(* ---- the statements for the two instruction sets, as used by the property file ---- *)
+Theorem simd_downsample_eq_all iw ocols row0 row1 :
+  Forall byte row0 -> Forall byte row1 -> (1 <= iw <= length row0)%nat -> (iw <= length row1)%nat -> (iw <= 2 * ocols)%nat ->
+  asm_h2v1_downsample jcsample_sse2_consts 16 iw ocols row0 = c_h2v1_downsample iw ocols row0 /\
+  asm_h2v1_downsample jcsample_avx2_consts 32 iw ocols row0 = c_h2v1_downsample iw ocols row0 /\
+  asm_h2v2_downsample jcsample_sse2_consts 16 iw ocols row0 row1 = c_h2v2_downsample iw ocols row0 row1 /\
+  asm_h2v2_downsample jcsample_avx2_consts 32 iw ocols row0 row1 = c_h2v2_downsample iw ocols row0 row1.
+Proof.
+  intros. repeat split.
+  - apply h2v1_downsample_eq; auto using jcsample_sse2_ok, vec16.
+  - apply h2v1_downsample_eq; auto using jcsample_avx2_ok, vec32.
+  - apply h2v2_downsample_eq; auto using jcsample_sse2_ok, vec16.
+  - apply h2v2_downsample_eq; auto using jcsample_avx2_ok, vec32.
+Qed.
+Theorem simd_fancy_eq_all w buf0 buf1 :
+  (3 <= w)%nat -> Forall byte buf0 -> Forall byte buf1 ->
+  (roundup w 32 <= length buf0)%nat -> (roundup w 32 <= length buf1)%nat ->
+  (roundup w 16 <= length buf0)%nat -> (roundup w 16 <= length buf1)%nat ->
+  asm_h2v1_fancy jdsample_sse2_consts 16 w buf0 = c_h2v1_fancy (firstn w buf0) /\
+  asm_h2v1_fancy jdsample_avx2_consts 32 w buf0 = c_h2v1_fancy (firstn w buf0) /\
+  asm_h2v2_fancy jdsample_sse2_consts 16 w buf0 buf1 = c_h2v2_fancy (firstn w buf0) (firstn w buf1) /\
+  asm_h2v2_fancy jdsample_avx2_consts 32 w buf0 buf1 = c_h2v2_fancy (firstn w buf0) (firstn w buf1).
+Proof.
+  intros. repeat split.
+  - apply h2v1_fancy_eq; auto using jdsample_sse2_ok; lia.
+  - apply h2v1_fancy_eq; auto using jdsample_avx2_ok; lia.
+  - apply h2v2_fancy_eq; auto using jdsample_sse2_ok; lia.
+  - apply h2v2_fancy_eq; auto using jdsample_avx2_ok; lia.
+Qed.
